@@ -300,6 +300,8 @@ P = {
   decided={
     "C29.a": "no model-derived text reaches a DOT/PlantUML write without passing an escaping function (taint with path atoms)",
     "C29.b": "dot_escape covers the record-label specials",
+    "C29.c": "every model gets its nodes (empty own repository falls back to exporting the model); class boxes are not de-duplicated by short name",
+    "C29.d": "dot_repr (which escapes strings only) is applied only to values known to be str/primitive on that path",
   },
   declined="syntactic validity of the whole output, PlantUML balance",
   technique="taint analysis (sources: model text; sanitizers: dot_escape/dot_repr/html_escape; sinks: f.write)"),
@@ -308,12 +310,15 @@ P = {
     "C30.a": "custom argument keys are '-'->'_' normalised at every store (sibling branches)",
     "C30.b": "validation table: missing mandatory / undeclared given -> TextXError before the generator call",
     "C30.c": "every handler of TextXError in check/generate logs and exits 1",
+    "C30.d": "textx check looks the metamodel up for every file (not conditional on a variable the loop assigns)",
+    "C30.e": "the missing-mandatory-parameter error does not depend on whether any custom argument was given",
   },
   declined="end-to-end CLI behaviour (click parsing)",
   technique="key-normalisation dataflow + decision table + handler discipline"),
 "C31": dict(
   decided={"C31.a": "obligation O5: an output file opened for writing is removed on every exceptional exit up to gen_file (or written via temp + os.replace)",
-           "C31.b": "the handler removing the partial output is catch-all"},
+           "C31.b": "the handler removing the partial output is catch-all",
+           "C31.c": "the built-in export writers let I/O errors of write/close propagate (nothing swallowed, file managed by with)"},
   declined="nothing else",
   technique="obligation ledger over exceptional exits"),
 "C32": dict(
@@ -325,6 +330,7 @@ P = {
   decided={
     "C33.a": "TextXMetaModel.process fills each location field of get_location into the error, guarded by 'is None', and re-raises",
     "C33.b": "processor dispatch passes the location of the processed object; textxerror_wrap re-raises TextXError unchanged and wraps others with the location",
+    "C33.c": "the line/col handed to a match processor come from the start of the match on every reaching definition",
   },
   declined="numeric correctness of the location",
   technique="field-coverage table agreement between get_location and the handler"),
@@ -335,6 +341,7 @@ P = {
     "C34.c": "innermost object wins for a shared span",
     "C34.d": "spans ordered start descending, end ascending",
     "C34.e": "field roles of RefRulePosition",
+    "C34.g": "position lists are sorted after the resolution loop for every model of the load",
     "C34.f": "every created object is entered into the span map (None-test, not truth value)",
   },
   declined="exactness of offsets",
